@@ -258,6 +258,7 @@ Proof.
       by (unfold is_error; cbn; rewrite (xf_internal _ X); reflexivity).
     assert (Eu : is_error EpOtlpTraceGrpc (x_grpc_unauth (r_ext r)) = true)
       by (unfold is_error; cbn; rewrite (xf_unauth _ X); reflexivity).
+    destruct (p_grpc_trace_auth_first p && f_auth (r_f r)); [apply sh_hdr; rewrite E; [exact Eu | reflexivity]|].
     destruct (f_parse (r_f r)); [apply sh_hdr; rewrite E; [exact Ei | reflexivity]|].
     destruct (f_auth (r_f r)); [apply sh_hdr; rewrite E; [exact Eu | reflexivity]|].
     destruct (otlp_process (p_env_msgp p) r) as [acts failed] eqn:Ho.
@@ -268,6 +269,7 @@ Proof.
       by (unfold is_error; cbn; rewrite (xf_internal _ X); reflexivity).
     assert (Eu : is_error EpOtlpLogsGrpc (x_grpc_unauth (r_ext r)) = true)
       by (unfold is_error; cbn; rewrite (xf_unauth _ X); reflexivity).
+    cbn [andb].
     destruct (f_parse (r_f r)); [apply sh_hdr; rewrite E; [exact Ei | reflexivity]|].
     destruct (f_auth (r_f r)); [apply sh_hdr; rewrite E; [exact Eu | reflexivity]|].
     destruct (otlp_process (p_env_map p) r) as [acts failed] eqn:Ho.
